@@ -1,5 +1,230 @@
-(* C10 — placeholder until the graph layer (Graph.v) lands. *)
-From DA Require Import PyBase.
-Open Scope Z_scope.
-Example C10_placeholder : zsum [1;2;3] = 6. Proof. reflexivity. Qed.
-Print Assumptions C10_placeholder.
+(* C10 — "Executing an array's task graph in any topological order, serially or with concurrent
+   threads, yields the same results.  No task modifies the value of any task it depends on,
+   and computing never modifies the NumPy arrays or array-likes the user passed in as sources."
+
+   Statements only; proofs in theories/GraphFacts.v.  Two models (theories/Graph.v):
+   * PURE tasks: the result of a task is a function of the values of its dependencies
+     (`task`, `run`, and for thread pools `crun` over Start/Finish events);
+   * a HEAP model in which results live in buffers, may be views / aliases of the results of
+     dependencies or of the user's source buffers, and tasks may write buffers in place.
+     `well_behaved` = every task writes only the buffer it allocated itself.
+   The theorems hold for all graphs, all value types and all task functions.  The harness
+   checks on real graphs that the hypotheses hold of dask's tasks (no task's execution changes
+   the bytes of its inputs or of the sources) and that shuffled topological orders and the
+   threaded scheduler agree. *)
+From Coq Require Import List Bool Arith PArith NArith ZArith.
+From DA Require Import Graph GraphFacts.
+Import ListNotations.
+
+(* ---- pure tasks ---- *)
+
+(* any two topological orders compute the same value for every key *)
+Theorem C10_confluence :
+  forall (V : Type) (g : list (task V)) (o1 o2 : list key),
+  NoDup (map t_key g) ->
+  topological (dep_graph g) o1 -> topological (dep_graph g) o2 ->
+  forall k, lookup (run g o1) k = lookup (run g o2) k.
+Proof. exact run_confluent. Qed.
+
+(* in a topological order no task is ever stuck on a missing dependency: every key of the
+   graph gets a value, no other key does *)
+Theorem C10_no_stuck :
+  forall (V : Type) (g : list (task V)) (o : list key),
+  NoDup (map t_key g) -> topological (dep_graph g) o ->
+  forall k, defined (dep_graph g) k -> exists v, lookup (run g o) k = Some (Val v).
+Proof. exact run_no_stuck. Qed.
+
+Theorem C10_domain :
+  forall (V : Type) (g : list (task V)) (o : list key),
+  topological (dep_graph g) o ->
+  forall k, ~ defined (dep_graph g) k -> lookup (run g o) k = None.
+Proof. exact run_domain. Qed.
+
+(* the common result is THE solution of the tasks' defining equations: the final store
+   satisfies them, and on an acyclic graph they have only one solution *)
+Theorem C10_run_satisfies :
+  forall (V : Type) (g : list (task V)) (o : list key),
+  NoDup (map t_key g) -> topological (dep_graph g) o -> satisfies g (run g o).
+Proof. exact run_satisfies. Qed.
+
+Theorem C10_unique_solution :
+  forall (V : Type) (g : list (task V)) (o : list key) (s1 s2 : store V),
+  topological (dep_graph g) o -> satisfies g s1 -> satisfies g s2 ->
+  forall k, In k o -> s1 k = s2 k.
+Proof. exact satisfies_unique. Qed.
+
+(* concurrent threads: a task reads its dependencies when it Starts and publishes when it
+   Finishes, other tasks' events interleave freely; every legal schedule publishes the values
+   of the serial run in any topological order *)
+Theorem C10_concurrent :
+  forall (V : Type) (g : list (task V)) (sched : list event) (o : list key),
+  NoDup (map t_key g) -> schedule_ok g sched -> topological (dep_graph g) o ->
+  forall k, lookup (c_store (crun g sched)) k = lookup (run g o) k.
+Proof. exact crun_confluent. Qed.
+
+(* legal schedules exist whenever a topological order does (the serial one) *)
+Theorem C10_serial_schedule_ok :
+  forall (V : Type) (g : list (task V)) (o : list key),
+  topological (dep_graph g) o -> schedule_ok g (serial o).
+Proof. exact serial_schedule_ok. Qed.
+
+(* ---- heap model ---- *)
+
+(* step non-interference: one step of a well-behaved graph changes no buffer except the
+   running task's own (so: not the sources, not the buffers of its dependencies) *)
+Theorem C10_step_frame :
+  forall (C : Type) (g : list (htask C)) (s : state C) (k : key) (b : buf),
+  well_behaved g -> b <> Own k -> st_heap (hstep g s k) b = st_heap s b.
+Proof. exact hstep_frame. Qed.
+
+(* computing never modifies the user's source buffers — for ANY execution order *)
+Theorem C10_sources_never_modified :
+  forall (C : Type) (g : list (htask C)) (order : list key) (h0 : heap C) (i : nat),
+  well_behaved g -> st_heap (hrun g order h0) (Src i) = h0 (Src i).
+Proof. exact sources_never_modified. Qed.
+
+(* no task modifies the value of a task computed before it (in particular of a dependency),
+   even when that value is a view of / the same object as somebody else's buffer *)
+Theorem C10_computed_values_never_change :
+  forall (C : Type) (g : list (htask C)) (pre post : list key) (h0 : heap C) (k : key),
+  well_behaved g -> NoDup (pre ++ post) -> In k pre ->
+  hvalue (hrun g (pre ++ post) h0) k = hvalue (hrun g pre h0) k.
+Proof. exact computed_values_never_change. Qed.
+
+(* hence the pure-function abstraction is valid for the heap semantics ... *)
+Theorem C10_heap_refines_pure :
+  forall (C : Type) (g : list (htask C)) (order : list key) (h0 : heap C),
+  well_behaved g -> NoDup order ->
+  forall k, hvalue (hrun g order h0) k = lookup (run (abstract h0 g) order) k.
+Proof. exact heap_refines_pure. Qed.
+
+(* ... and the final contents of every task's result are the same for all topological orders *)
+Theorem C10_heap_confluence :
+  forall (C : Type) (g : list (htask C)) (o1 o2 : list key) (h0 : heap C),
+  well_behaved g -> NoDup (map h_key g) ->
+  topological (hdep_graph g) o1 -> topological (hdep_graph g) o2 ->
+  forall k, hvalue (hrun g o1 h0) k = hvalue (hrun g o2 h0) k.
+Proof. exact heap_confluent. Qed.
+
+Theorem C10_heap_no_stuck :
+  forall (C : Type) (g : list (htask C)) (o : list key) (h0 : heap C),
+  well_behaved g -> NoDup (map h_key g) -> topological (hdep_graph g) o ->
+  forall k, defined (hdep_graph g) k -> exists v, hvalue (hrun g o h0) k = Some (Val v).
+Proof. exact heap_no_stuck. Qed.
+
+Theorem C10_well_behaved_b_spec :
+  forall (C : Type) (g : list (htask C)), well_behaved_b g = true <-> well_behaved g.
+Proof. exact well_behaved_b_spec. Qed.
+
+(* ---- Examples ---- *)
+Open Scope positive_scope.
+
+(* a 5-task diamond over Z:  1 = 3;  2 = x1 + 1;  3 = x1 * 2;  4 = x2 - x3;  5 = x4 * x4 *)
+Definition nthZ (l : list Z) (i : nat) : Z := nth i l 0%Z.
+Definition C10_diamond : list (task Z) :=
+  [ {| t_key := 1; t_deps := [];     t_fun := fun _ => 3%Z |};
+    {| t_key := 2; t_deps := [1];    t_fun := fun v => (nthZ v 0 + 1)%Z |};
+    {| t_key := 3; t_deps := [1];    t_fun := fun v => (nthZ v 0 * 2)%Z |};
+    {| t_key := 4; t_deps := [2; 3]; t_fun := fun v => (nthZ v 0 - nthZ v 1)%Z |};
+    {| t_key := 5; t_deps := [4];    t_fun := fun v => (nthZ v 0 * nthZ v 0)%Z |} ].
+Definition C10_o1 := [1; 2; 3; 4; 5].
+Definition C10_o2 := [1; 3; 2; 4; 5].
+Definition C10_probe := [1; 2; 3; 4; 5; 6].
+
+(* the hypotheses of C10_confluence hold of the two orders ... *)
+Example C10_ex_hyp_nodup : NoDup (map t_key C10_diamond).
+Proof. apply nodup_b_NoDup. vm_compute. reflexivity. Qed.
+Example C10_ex_hyp_o1 : topological (dep_graph C10_diamond) C10_o1.
+Proof. apply topo_check_topological. vm_compute. reflexivity. Qed.
+Example C10_ex_hyp_o2 : topological (dep_graph C10_diamond) C10_o2.
+Proof. apply topo_check_topological. vm_compute. reflexivity. Qed.
+(* ... and the two runs give the same store (key 6 is not in the graph) *)
+Example C10_ex_same_store :
+  map (run C10_diamond C10_o1) C10_probe = map (run C10_diamond C10_o2) C10_probe
+  /\ map (run C10_diamond C10_o1) C10_probe
+     = [Some (Val 3); Some (Val 4); Some (Val 6); Some (Val (-2)); Some (Val 4); None]%Z.
+Proof. vm_compute. split; reflexivity. Qed.
+(* a non-topological order gets stuck *)
+Example C10_ex_bad_order_stuck : run C10_diamond [1; 2; 4; 3; 5] 4 = Some Stuck.
+Proof. vm_compute. reflexivity. Qed.
+
+(* an interleaved thread-pool schedule: 2 and 3 run concurrently, 3 finishes first *)
+Definition C10_sched : list event :=
+  [Start 1; Finish 1; Start 2; Start 3; Finish 3; Finish 2; Start 4; Finish 4; Start 5; Finish 5].
+Example C10_ex_schedule_ok : schedule_ok C10_diamond C10_sched.
+Proof.
+  unfold schedule_ok, C10_sched, C10_diamond. cbn [sched_ok_from].
+  repeat match goal with
+  | |- _ /\ _ => split
+  | |- ~ In _ _ => cbv; intuition discriminate
+  | |- In _ _ => cbv; tauto
+  | |- forall t, In t _ -> t_key t = _ -> incl _ _ =>
+      let t := fresh "t" in let H := fresh "H" in let E := fresh "E" in
+      intros t H E; cbn in H;
+      repeat (destruct H as [H|H]; [subst t; cbn in E; try discriminate E|]); try contradiction;
+      cbv; intuition discriminate
+  end.
+  intro k. cbv. intuition.
+Qed.
+Example C10_ex_concurrent_same_store :
+  map (c_store (crun C10_diamond C10_sched)) C10_probe = map (run C10_diamond C10_o1) C10_probe.
+Proof. vm_compute. reflexivity. Qed.
+
+(* heap example: source buffer 0; 1 = view of the source; 2 = view of 1; 3 = fresh from 1;
+   4 = fresh from 2,3 (scribbling on its own buffer first); 5 = alias of 4 *)
+Definition hz (k : key) (deps : list key) (e : effect) (f : list Z -> Z) (v : Z -> Z) (w : list buf) : htask Z :=
+  {| h_key := k; h_deps := deps; h_eff := e; h_fun := f; h_view := v; h_writes := w;
+     h_wval := fun _ _ old => (old + 1000)%Z |}.
+Definition C10_heap_diamond : list (htask Z) :=
+  [ hz 1 []     (ViewOfSource 0) (fun _ => 0%Z) (fun c => (c * 10)%Z) [];
+    hz 2 [1]    (ViewOf 0)       (fun _ => 0%Z) (fun c => (c + 1)%Z) [];
+    hz 3 [1]    Fresh            (fun v => (nthZ v 0 * 2)%Z) (fun c => c) [];
+    hz 4 [2; 3] Fresh            (fun v => (nthZ v 0 - nthZ v 1)%Z) (fun c => c) [Own 4];
+    hz 5 [4]    (SameAs 0)       (fun _ => 0%Z) (fun c => c) [] ].
+Definition C10_h0 : heap Z := fun b => match b with Src _ => 7%Z | Own _ => 0%Z end.
+
+Example C10_ex_heap_well_behaved : well_behaved C10_heap_diamond.
+Proof. apply well_behaved_b_spec. vm_compute. reflexivity. Qed.
+Example C10_ex_heap_same :
+  map (hvalue (hrun C10_heap_diamond C10_o1 C10_h0)) C10_probe
+  = map (hvalue (hrun C10_heap_diamond C10_o2 C10_h0)) C10_probe
+  /\ map (hvalue (hrun C10_heap_diamond C10_o1 C10_h0)) C10_probe
+     = [Some (Val 70); Some (Val 71); Some (Val 140); Some (Val (-69)); Some (Val (-69)); None]%Z
+  /\ st_heap (hrun C10_heap_diamond C10_o1 C10_h0) (Src 0) = 7%Z.
+Proof. vm_compute. repeat split; reflexivity. Qed.
+
+(* the hypothesis matters: if task 2 writes into the buffer of its dependency 1 in place, task 3
+   sees a different value depending on whether it runs before or after 2 *)
+Definition C10_heap_mutating : list (htask Z) :=
+  [ hz 1 []  Fresh (fun _ => 5%Z) (fun c => c) [];
+    hz 2 [1] Fresh (fun v => (nthZ v 0 + 1)%Z) (fun c => c) [Own 1];
+    hz 3 [1] Fresh (fun v => (nthZ v 0 * 2)%Z) (fun c => c) [] ].
+Example C10_ex_mutation_not_well_behaved : well_behaved_b C10_heap_mutating = false.
+Proof. vm_compute. reflexivity. Qed.
+Example C10_ex_mutation_breaks_confluence :
+  hvalue (hrun C10_heap_mutating [1; 2; 3] C10_h0) 3 = Some (Val 2010%Z) /\
+  hvalue (hrun C10_heap_mutating [1; 3; 2] C10_h0) 3 = Some (Val 10%Z).
+Proof. vm_compute. split; reflexivity. Qed.
+(* ... and a task that writes into a source buffer modifies the user's array *)
+Definition C10_heap_clobber : list (htask Z) :=
+  [ hz 1 [] (ViewOfSource 0) (fun _ => 0%Z) (fun c => c) [Src 0] ].
+Example C10_ex_source_clobbered : st_heap (hrun C10_heap_clobber [1] C10_h0) (Src 0) = 1007%Z.
+Proof. vm_compute. reflexivity. Qed.
+
+Close Scope positive_scope.
+
+Print Assumptions C10_confluence.
+Print Assumptions C10_no_stuck.
+Print Assumptions C10_domain.
+Print Assumptions C10_run_satisfies.
+Print Assumptions C10_unique_solution.
+Print Assumptions C10_concurrent.
+Print Assumptions C10_serial_schedule_ok.
+Print Assumptions C10_step_frame.
+Print Assumptions C10_sources_never_modified.
+Print Assumptions C10_computed_values_never_change.
+Print Assumptions C10_heap_refines_pure.
+Print Assumptions C10_heap_confluence.
+Print Assumptions C10_heap_no_stuck.
+Print Assumptions C10_well_behaved_b_spec.
+Print Assumptions C10_ex_schedule_ok.
